@@ -38,6 +38,8 @@ fn body(file_level_using: bool) -> (String, Vec<i32>, Vec<i32>, Vec<i32>) {
         ("        total = a.add(b);".into(), "S"),
         ("        total = a.sub(b);".into(), "S"),
         ("        total = a.mul(b).div(2);".into(), "S"),
+        ("        total = a.sub(b, \"underflow\");".into(), "S"),
+        ("        total = SafeMath.mul(a, b);".into(), "S"),
         ("        total = a.mod(b);".into(), ""),
         ("        total = add(a, b);".into(), ""),
         ("        require(a > b);".into(), ""),
